@@ -71,6 +71,12 @@ struct World {
     std::deque<detail::class_info> cis; // parallel to spec.recs
     std::vector<char> ci_registered;
     std::vector<std::unique_ptr<type_id[]>> arrays;
+    struct ArrayRec {
+        std::vector<std::pair<int, int>> key; // (class, alias) sequence
+        std::vector<type_id> ids;             // what the array must hold
+        type_id* p = nullptr;
+    };
+    std::vector<ArrayRec> array_recs;
     std::vector<std::uintptr_t*> own_vptr_store;
     std::vector<std::uintptr_t*>& vptr_store; // per class
     std::deque<MethInst> meths;               // parallel to spec.meths
@@ -173,15 +179,54 @@ struct World {
             return {nullptr, nullptr};
         }
         std::size_t n = classes.size();
-        auto arr = std::make_unique<type_id[]>(n + 1);
+        // as in the library, where type_id_list<Policy, types<...>> is one
+        // static array per sequence of classes: class records, methods and
+        // definitions with the same sequence share the same array
+        std::vector<std::pair<int, int>> key;
         for (std::size_t i = 0; i < n; ++i) {
-            arr[i] = static_id(
-                classes[i], aliases.empty() ? 0 : aliases[i]);
+            key.push_back({classes[i], aliases.empty() ? 0 : aliases[i]});
+        }
+        for (auto& rec : array_recs) {
+            if (rec.key == key) {
+                return {rec.p, rec.p + n};
+            }
+        }
+        auto arr = std::make_unique<type_id[]>(n + 1);
+        ArrayRec rec;
+        rec.key = key;
+        for (std::size_t i = 0; i < n; ++i) {
+            arr[i] = static_id(key[i].first, key[i].second);
+            rec.ids.push_back(
+                class_id(spec, key[i].first, key[i].second, cfg.projection));
         }
         arr[n] = 0;
         type_id* p = arr.get();
+        rec.p = p;
         arrays.push_back(std::move(arr));
+        array_recs.push_back(std::move(rec));
         return {p, p + n};
+    }
+
+    // the registration arrays are the program's static data: update may
+    // resolve deferred ids in place, and nothing else
+    std::string check_arrays() const {
+        for (auto& rec : array_recs) {
+            std::size_t n = rec.ids.size();
+            if (cfg.deferred && rec.p[n] == 0) {
+                continue; // not resolved (its registrations are not live)
+            }
+            for (std::size_t i = 0; i < n; ++i) {
+                if (rec.p[i] != rec.ids[i]) {
+                    return "registration-arrays: update modified a static "
+                           "list of type ids (element " +
+                        std::to_string(i) + " of a list of " +
+                        std::to_string(n) + " is " +
+                        std::to_string(rec.p[i]) + ", was " +
+                        std::to_string(rec.ids[i]) + ")";
+                }
+            }
+        }
+        return "";
     }
 
     void build_class_records() {
